@@ -16,8 +16,11 @@ LEVEL = {
             "is Hermitian; the code's step matrix is C diag(e^{-i lambda dt}) C^H and is unitary when C is (eigh's contract, monitored); U rho U^H "
             "preserves Hermiticity, unit trace, positive semi-definiteness (hence populations in [0,1]) and purity; by induction the state is valid "
             "after ANY list of exponential steps. linear-rk4: general RK4 invariance theorems (invariant subspaces, annihilated functionals) "
-            "instantiated on the model's interaction-picture run: trace and Hermiticity preserved exactly for any sub-step count. PARTIAL: "
-            "positivity/purity under RK4 hold only to its truncation error (tested, 1e-6). Hops do not touch rho; collapse gives the pure active state", "7 C02", NOTE,
+            "instantiated on the model's interaction-picture run: trace and Hermiticity preserved exactly for any sub-step count. The property "
+            "is FALSE for linear-rk4 as far as positivity/purity go: Lean counterexample rk4_purity_witness (one step from a pure state gives "
+            "tr rho^2 = 1145/1152), replayed on the implementation and the model driver on every run; KNOWN FINDING rk4-not-unitary "
+            "(signature: linear-rk4 only, trace/Hermiticity exact, defect vanishing under sub-step refinement). Hops do not touch rho; a collapse "
+            "gives the pure state that is active after the step's hop attempt", "7 C02", NOTE,
             "Lean 4 theorems (Matrix/unitary/PosSemidef, induction over steps, RK4 invariance) + correspondence with captured eigh"),
     "C03": ("proof", "Lean theorems for every N: flux identity for rho'=-i[W,rho], antisymmetry, zero self-flux, g=max(0,b dt/rho_kk)>=0, sum rule, "
             "complete specification of the cumulative-partition scan (hop to n iff zeta in n's slot; zero-width slots never chosen), Poisson total "
@@ -25,7 +28,9 @@ LEVEL = {
             "every boundary of dyadic partitions", "7 C03", NOTE, "Lean 4 theorems (Finset algebra, list induction) + exact-boundary correspondence"),
     "C04": ("proof", "Lean theorems: upward hop accepted iff (v.u)^2/(2 sum u_i^2/m_i) > gap (strict), downward always; momentum change is "
             "s*u (parallel to the direction); the applied root has the smaller magnitude and both are roots; rejected hop is a no-op; event fields. "
-            "Run-level event/active-state consistency is checked on the implementation for both trace stores (oracle), its loop theorem is in C16", "7 C04", NOTE,
+            "Event bookkeeping (MudModel/Events.lean): for ANY list of attempts the hop log is sound and complete w.r.t. the active-state "
+            "sequence (one event per change, from/to = states before/after, no event without change, steps increasing, frustrated count). "
+            "Run-level event/active-state consistency is also checked on the implementation for both trace stores", "7 C04", NOTE,
             "Lean 4 theorems + correspondence with gaps at 1e-13..0.3 relative distance from the threshold"),
     "C05": ("proof", "Lean theorems. (A) any model, N, dimension: the derivative coupling of the model's basis transformation has zero diagonal, is "
             "antisymmetric, the off-diagonal force matrix equals (E_i-E_j) d_ij above the gap guard, force = diagonal of the force matrix; first-order "
